@@ -483,6 +483,86 @@ example : parseIPv6 "::ffff:192.0.02.1".toStr = none ∧ parseIPv6 "::ffff:192.0
 namespace R5
 open StrTotal (bind_ok ite_err_ok rebracket)
 
+theorem regPathA_true_false {h r : Str} (hr : regPathA h true = .ok r) : regPathA h false = .ok r := by
+  obtain ⟨ha, rfl, _⟩ := regPathA_ok hr
+  simp [regPathA, ha, pure, Except.pure]
+
+theorem regPathA_false_true {h r : Str} (hr : regPathA h false = .ok r) :
+    regPathA h true = .ok r ∨ regPathA h true = .error .valueError := by
+  obtain ⟨ha, rfl, _⟩ := regPathA_ok hr
+  simp only [regPathA, ha, if_true, Bool.true_and]
+  split
+  · exact Or.inr rfl
+  · exact Or.inl rfl
+
+/-- the re-entry (fix 3fbf5b4): validation only rejects -/
+theorem encodeHostA_true_false {o : Oracles} {h r : Str} (he : encodeHostA o h true = .ok r) :
+    encodeHostA o h false = .ok r := by
+  rw [encodeHostA_eqV] at he ⊢
+  cases hl : looksIP o h with
+  | error er => rw [hl] at he; cases he
+  | ok b =>
+    rw [hl] at he
+    simp only [bind, Except.bind, ipResV_eq] at he ⊢
+    cases hi : (if b = true then (ipRes h).map (fun r => if zoneBad h true then (.error .valueError : R Str) else .ok r)
+        else none) with
+    | none =>
+      rw [hi] at he
+      have : (if b = true then (ipRes h).map (fun r => if zoneBad h false then (.error .valueError : R Str) else .ok r)
+          else none) = none := by
+        cases b with
+        | false => rfl
+        | true =>
+          simp only [if_true] at hi ⊢
+          cases hr : ipRes h with
+          | none => rfl
+          | some x => rw [hr] at hi; cases hi
+      rw [this]
+      exact regPathA_true_false he
+    | some r' =>
+      rw [hi] at he
+      cases b with
+      | false => cases hi
+      | true =>
+        simp only [if_true] at hi ⊢
+        cases hr : ipRes h with
+        | none => rw [hr] at hi; cases hi
+        | some x =>
+          rw [hr] at hi
+          simp only [Option.map_some, Option.some.injEq] at hi
+          simp only [Option.map_some, zoneBad_false, Bool.false_eq_true, if_false]
+          subst hi
+          simp only at he
+          split at he
+          · cases he
+          · exact he
+
+theorem encodeHostA_false_true {o : Oracles} {h r : Str} (he : encodeHostA o h false = .ok r) :
+    encodeHostA o h true = .ok r ∨ encodeHostA o h true = .error .valueError := by
+  rw [encodeHostA_eqV] at he ⊢
+  cases hl : looksIP o h with
+  | error er => rw [hl] at he; cases he
+  | ok b =>
+    rw [hl] at he
+    simp only [bind, Except.bind, ipResV_eq] at he ⊢
+    cases b with
+    | false =>
+      simp only [Bool.false_eq_true, if_false] at he ⊢
+      exact regPathA_false_true he
+    | true =>
+      simp only [if_true] at he ⊢
+      cases hr : ipRes h with
+      | none =>
+        rw [hr] at he
+        simp only [Option.map_none] at he ⊢
+        exact regPathA_false_true he
+      | some x =>
+        rw [hr] at he
+        simp only [Option.map_some, zoneBad_false, Bool.false_eq_true, if_false] at he ⊢
+        split
+        · exact Or.inr rfl
+        · exact Or.inl he
+
 theorem regPath_true_false {o : Oracles} {h r : Str} (hr : regPath o h true = .ok r) : regPath o h false = .ok r := by
   unfold regPath at hr ⊢
   split
@@ -495,26 +575,48 @@ theorem regPath_true_false {o : Oracles} {h r : Str} (hr : regPath o h true = .o
     rw [if_neg ha] at hr
     obtain ⟨a, h1, h2⟩ := bind_ok hr
     rw [h1]
-    split at h2
-    · cases h2
-    · simpa [bind, Except.bind] using h2
+    simp only [bind, Except.bind]
+    split
+    · rename_i h58
+      rw [if_pos h58] at h2
+      exact encodeHostA_true_false h2
+    · rename_i h58
+      rw [if_neg h58] at h2
+      split at h2
+      · cases h2
+      · simpa using h2
 
+/-- (before fix 3fbf5b4 the validating call was exactly `if notRegName r then ValueError else r`; an IDNA answer that
+    is re-entered as an IP literal is screened differently — by its zone — so only the disjunction is kept) -/
 theorem regPath_false_true {o : Oracles} {h r : Str} (hr : regPath o h false = .ok r) :
-    regPath o h true = (if notRegName r then .error .valueError else .ok r) := by
+    regPath o h true = .ok r ∨ regPath o h true = .error .valueError := by
   unfold regPath at hr ⊢
   split
   · rename_i ha
     rw [if_pos ha] at hr
     simp only [Bool.false_and, Bool.false_eq_true, if_false, pure, Except.pure, Except.ok.injEq] at hr
     subst hr
-    simp [pure, Except.pure]
+    simp only [Bool.true_and]
+    split
+    · exact Or.inr rfl
+    · exact Or.inl rfl
   · rename_i ha
     rw [if_neg ha] at hr
     obtain ⟨a, h1, h2⟩ := bind_ok hr
     rw [h1]
-    simp only [Bool.false_and, Bool.false_eq_true, if_false, pure, Except.pure, Except.ok.injEq] at h2
-    subst h2
-    simp [bind, Except.bind, pure, Except.pure]
+    simp only [bind, Except.bind]
+    split
+    · rename_i h58
+      rw [if_pos h58] at h2
+      exact encodeHostA_false_true h2
+    · rename_i h58
+      rw [if_neg h58] at h2
+      simp only [Bool.false_and, Bool.false_eq_true, if_false, pure, Except.pure, Except.ok.injEq] at h2
+      subst h2
+      simp only [Bool.true_and]
+      split
+      · exact Or.inr rfl
+      · exact Or.inl rfl
 
 theorem unbracket_bracket' {r : Str} (h91 : 91 ∉ r) : unbracket (bracket r) = r := by
   unfold unbracket bracket
@@ -607,10 +709,7 @@ theorem C16_validation_only_rejects (o : Oracles) (h r : Str) :
       | none =>
         rw [hi] at he
         simp only at he ⊢
-        rw [regPath_false_true he]
-        split
-        · exact Or.inr rfl
-        · exact Or.inl rfl
+        exact regPath_false_true he
       | some r' =>
         rw [hi] at he
         simp only [zoneBad_false, Bool.false_eq_true, if_false] at he ⊢
@@ -629,60 +728,57 @@ theorem C16_encode_idempotent_every_host (o : Oracles) (h r : Str) (v' : Bool)
     (he : encodeHost o h true = .ok r) :                    -- the one hypothesis: `h` passes build(host=) / with_host
     encodeHost o (unbracket r) v' = .ok r ∧ encodeHost o h false = .ok r := by
   refine ⟨?_, (C16_validation_only_rejects o h r).1 he⟩
+  -- the IP branch, for ANY text `h` (the host itself, or — fix 3fbf5b4 — the IDNA answer that spells an IP literal)
+  have keyIP : ∀ h : Str, encodeHost o h true = .ok r → ipRes h = some r → zoneBad h true = false →
+      encodeHost o (unbracket r) true = .ok r := by
+    intro h he hres hz
+    cases hp : parseIP (partition 37 h).1 with
+    | none => simp [ipRes, hp] at hres
+    | some ip =>
+      cases ip with
+      | v4 o4 =>
+        have hrh : r = h := ipRes_v4_eq hp hres
+        subst hrh
+        have h91 : 91 ∉ r := by
+          intro hm
+          have hch := parseIPv4_chars (StrTotal.parseIP_v4 hp)
+          have hj := StrTotal.partition_join 37 r
+          rw [hj] at hm
+          rcases List.mem_append.1 hm with hm | hm
+          · rcases hch 91 hm with h | h
+            · omega
+            · simp [isDigitC] at h
+          · cases hsep : (partition 37 r).2.1 with
+            | false => rw [hsep] at hm; simp at hm
+            | true =>
+              rw [hsep] at hm
+              simp only [↓reduceIte, List.mem_cons] at hm
+              rcases hm with h | hm
+              · omega
+              · have := zone_chars (zoneBad_true_false hz hsep) 91 hm
+                omega
+        rw [unbracket_of_no91 h91]
+        exact he
+      | v6 h8 =>
+        obtain ⟨h4, h6⟩ := StrTotal.parseIP_v6 hp
+        obtain ⟨hhead, _, _⟩ := C16_ipv6_bracketed o h true h8 r h4 h6 he
+        rw [unbracket_of_head hhead]
+        exact C16_ipv6_idem o h true h8 r h4 h6 he
   have key : encodeHost o (unbracket r) true = .ok r := by
     by_cases ha : isAscii h = true
     · exact C16_encode_idempotent o h r true ha (Or.inl rfl) he
     · have hna : isAscii h = false := by simpa using ha
       rcases encodeHost_casesV he with ⟨hres, hz⟩ | ⟨hwhy, hreg⟩
       · -- the IP branch (an IP literal in front of a non-ASCII zone cannot pass, but no case analysis is needed)
-        cases hp : parseIP (partition 37 h).1 with
-        | none => simp [ipRes, hp] at hres
-        | some ip =>
-          cases ip with
-          | v4 o4 =>
-            have hrh : r = h := ipRes_v4_eq hp hres
-            subst hrh
-            have h91 : 91 ∉ r := by
-              intro hm
-              have hch := parseIPv4_chars (StrTotal.parseIP_v4 hp)
-              have hj := StrTotal.partition_join 37 r
-              rw [hj] at hm
-              rcases List.mem_append.1 hm with hm | hm
-              · rcases hch 91 hm with h | h
-                · omega
-                · simp [isDigitC] at h
-              · cases hsep : (partition 37 r).2.1 with
-                | false => rw [hsep] at hm; simp at hm
-                | true =>
-                  rw [hsep] at hm
-                  simp only [↓reduceIte, List.mem_cons] at hm
-                  rcases hm with h | hm
-                  · omega
-                  · have := zone_chars (zoneBad_true_false hz hsep) 91 hm
-                    omega
-            rw [unbracket_of_no91 h91]
-            exact he
-          | v6 h8 =>
-            obtain ⟨h4, h6⟩ := StrTotal.parseIP_v6 hp
-            obtain ⟨hhead, _, _⟩ := C16_ipv6_bracketed o h true h8 r h4 h6 he
-            rw [unbracket_of_head hhead]
-            exact C16_ipv6_idem o h true h8 r h4 h6 he
-      · -- the IDNA branch: the answer passed the reg-name screen
-        unfold regPath at hreg
-        rw [hna] at hreg
-        simp only [Bool.false_eq_true, if_false] at hreg
-        obtain ⟨a, h1, h2⟩ := StrTotal.bind_ok hreg
-        simp only [Bool.true_and] at h2
-        split at h2
-        · cases h2
-        · rename_i hnr
-          have hnr' : notRegName a = false := by simpa using hnr
-          have : a = r := by simpa [pure, Except.pure] using h2
-          subst this
+        exact keyIP h he hres hz
+      · obtain ⟨a, hi, ⟨_, rfl, hnr'⟩ | ⟨h58, hres, hz⟩⟩ := regPath_idn_validated hna hreg
+        · -- the IDNA branch: the answer passed the reg-name screen
           rw [unbracket_of_no91 (notRegName_no91 hnr')]
-          by_cases hne : a = []
+          by_cases hne : r = []
           · subst hne; exact V6More.encodeHost_nil o true
           · exact Idn.encodeHost_sane o ⟨hne, hnr'⟩ true
+        · -- (fix 3fbf5b4) the answer holds a ':' and spells an IP literal: the IP branch, on the answer
+          exact keyIP a (encodeHost_ip (looksIP_of_colon o (mem_iff.mp h58)) hres hz) hres hz
   cases v' with
   | true => exact key
   | false => exact (C16_validation_only_rejects o _ r).1 key
@@ -838,13 +934,16 @@ open V6More FixLemmas in
     not, whatever its NFKC form, whatever the IDNA oracle answers), if `u.with_host(h0)` returns a URL then the raw host
     it stores contains none of '/', '?', '#', '@', ' ', and contains ':' '[' ']' only when `h0` is an IP literal (then
     the raw host is the compressed IPv6 text with its zone); so no part of the host can be re-read as userinfo, port,
-    path, query or fragment.  (For a non-ASCII `h0` the stored host is the IDNA answer, which passed `NOT_REG_NAME`.) -/
+    path, query or fragment.  (For a non-ASCII `h0` the stored host is the IDNA answer, which passed `NOT_REG_NAME` —
+    or, since fix 3fbf5b4, the canonical text of the IP literal which that answer spells: the second alternative of the
+    last conjunct.) -/
 theorem C16_with_host_needs_no_nfkc_screen (e : Env) (u u' : Url) (h0 : Str) (hw : withHost e u h0 = .ok u') :
     ∃ eh, encodeHost e.o h0 true = .ok eh ∧
       ∀ x, rawHost e u' = .ok (some x) →
         (∀ c ∈ x, c ∈ eh) ∧
         64 ∉ x ∧ 47 ∉ x ∧ 63 ∉ x ∧ 35 ∉ x ∧ 32 ∉ x ∧
-        ((∃ c ∈ x, c = 58 ∨ c = 91 ∨ c = 93) → ∃ ip, parseIP (partition 37 h0).1 = some ip) := by
+        ((∃ c ∈ x, c = 58 ∨ c = 91 ∨ c = 93) → (∃ ip, parseIP (partition 37 h0).1 = some ip) ∨
+          (isAscii h0 = false ∧ ∃ a ip, idnaEncode e.o h0 = .ok a ∧ parseIP (partition 37 a).1 = some ip)) := by
   have hw0 := hw
   unfold withHost at hw
   obtain ⟨hn0, hw⟩ := ite_err_ok hw
